@@ -17,8 +17,11 @@ pub struct Waker { pub id: Ghost<int> }
 pub type WakerRef = Waker;
 pub struct WakeThread(pub Arc<JobQueue>, pub Thread);
 pub struct WakeQueue(pub Arc<JobQueue>, pub Arc<SchedulerCore>);
-/// a pool thread (opaque); whether its OS thread has finished is a stable ghost fact
-pub struct SchedulerThread { pub id: Ghost<int> }
+/// a pool thread: the sending end of its job channel and the handle of its OS thread (both opaque std types; their methods are declared,
+/// with their assumed contracts, in U-POOL where scheduler_thread.rs is verified)
+pub struct JobSender { pub _p: () }
+pub struct JoinHandle { pub _p: () }
+pub struct SchedulerThread { pub jobs: JobSender, pub thread: JoinHandle }
 pub type ThreadEntry = (Arc<LogMutex<bool>>, SchedulerThread);
 pub struct SchedulerCore { pub schedule: Arc<Mutex<Schedule>>, pub threads: LogMutex<Vec<ThreadEntry>>, pub max_threads: LogMutex<usize> }
 pub struct Scheduler { pub core: Arc<SchedulerCore> }
